@@ -7,7 +7,7 @@ from . import props, runner
 from .report import Run, main_wrapper
 
 
-def run_prop(prop, extra_parts=()):
+def run_prop(prop, extra_parts=(), post=None):
     cfg = props.PROPS[prop]
     run = Run(prop, cfg["level"])
     corpus = runner.load_corpus(cfg.get("corpus", prop))
@@ -42,6 +42,8 @@ def run_prop(prop, extra_parts=()):
     }
     for part in extra_parts:
         part(run, cov)
+    if post is not None:
+        post(run, results, cov)
     return run.finish(cov, props.COMMON_ASSUMPTIONS + cfg.get("assumptions", []))
 
 
